@@ -181,6 +181,10 @@ def extract(frag_specs):
             if "expect_count" in f and r.get("count") != f["expect_count"]:
                 raise Undecided("lost anchor: %s in %s matches %s places, expected %s" % (f["sel"], rel, r.get("count"), f["expect_count"]))
             part = f.get("part", "whole")
+            if part == "head" and "bare" in r["ranges"] and "body" in r["ranges"]:
+                # visibility + signature: from the first non-attribute token up to the body's brace
+                b, bd = r["ranges"]["bare"], r["ranges"]["body"]
+                r["ranges"]["head"] = [b[0], b[1], bd[0], bd[1]]
             if part not in r["ranges"]:
                 raise Undecided("lost anchor: %s has no part %s" % (f["sel"], part))
             rng = r["ranges"][part]
@@ -196,6 +200,79 @@ def extract(frag_specs):
                 fr.rewrites.append({"pattern": pat, "replacement": repl, "why": why, "times": n})
             fr.text = text
             out[f["name"]] = fr
+    return out
+
+
+def _split_top(s, sep=","):
+    out, depth, cur = [], 0, ""
+    for ch in s:
+        if ch in "([{<":
+            depth += 1
+        elif ch in ")]}>":
+            depth -= 1
+        if ch == sep and depth == 0:
+            out.append(cur)
+            cur = ""
+        else:
+            cur += ch
+    if cur.strip():
+        out.append(cur)
+    return [x.strip() for x in out if x.strip()]
+
+
+def _strip_comments(t):
+    t = re.sub(r"//[^\n]*", "", t)
+    return re.sub(r"/\*.*?\*/", "", t, flags=re.S)
+
+
+def extract_armfns(specs):
+    """An arm `Enum::Variant { a, b, c } => BODY` of a big match becomes
+         pub fn <fn_name>(&mut self, a: &A, b: &B, c: &C) BODY
+    BODY is verbatim; the parameter list is generated from the pattern's binding names and the
+    field types of the (also extracted) enum definition, exactly what matching on `&Enum` binds."""
+    out = {}
+    for f in specs:
+        arm = extract([{"name": "pat", "file": f["file"], "sel": f["sel"], "part": "pat"},
+                       {"name": "body", "file": f["file"], "sel": f["sel"], "part": "body"}])
+        if "expect_count" in f:
+            r = locate(f["file"], [f["sel"]])[0]
+            if r.get("count") != f["expect_count"]:
+                raise Undecided("lost anchor: %s matches %s arms" % (f["sel"], r.get("count")))
+        en = extract([{"name": "enum", "file": f["enum_file"], "sel": f["enum_sel"]}])["enum"]
+        pat = _strip_comments(arm["pat"].text)
+        m = re.match(r"\s*([\w:]+)\s*\{(.*)\}\s*$", pat, flags=re.S)
+        if not m or not m.group(1).endswith("::" + f["variant"]):
+            raise Undecided("lost anchor: pattern of %s is not a plain struct pattern of variant %s: %r" % (f["sel"], f["variant"], pat[:80]))
+        binds = _split_top(m.group(2))
+        if any(not re.fullmatch(r"\w+", b) for b in binds):
+            raise Undecided("lost anchor: pattern of %s has non-trivial bindings %r" % (f["sel"], binds))
+        et = _strip_comments(re.sub(r"^\s*///[^\n]*$", "", en.text, flags=re.M))
+        vm = re.search(r"\b" + f["variant"] + r"\s*\{(.*?)\}", et, flags=re.S)
+        if not vm:
+            raise Undecided("lost anchor: variant %s not found in %s" % (f["variant"], f["enum_sel"]))
+        ftypes = {}
+        for fld in _split_top(vm.group(1)):
+            fm = re.match(r"(?:pub\s+)?(\w+)\s*:\s*(.+)$", fld, flags=re.S)
+            if fm:
+                ftypes[fm.group(1)] = " ".join(fm.group(2).split())
+        missing = [b for b in binds if b not in ftypes]
+        if missing:
+            raise Undecided("lost anchor: bindings %s are not fields of variant %s" % (missing, f["variant"]))
+        params = ", ".join("%s: &%s" % (b, ftypes[b]) for b in binds)
+        text = "pub fn %s(&mut self, %s) %s" % (f["fn_name"], params, arm["body"].text)
+        fr = Fragment(f["name"], f["file"], f["sel"], "body", text, arm["body"].rng)
+        fr.sha = arm["body"].sha
+        fr.rewrites.append({"why": "match arm wrapped as a method; parameter list generated from the pattern bindings %s and the field types of %s::%s" % (binds, f["enum_sel"], f["variant"]),
+                            "pattern_sha256": arm["pat"].sha, "enum_sha256": en.sha, "generated_signature": "fn %s(&mut self, %s)" % (f["fn_name"], params)})
+        out[f["name"]] = fr
+    return out
+
+
+def extract_all(frag_specs):
+    plain = [f for f in frag_specs if f.get("kind", "plain") == "plain"]
+    arms = [f for f in frag_specs if f.get("kind") == "armfn"]
+    out = extract(plain)
+    out.update(extract_armfns(arms))
     return out
 
 
